@@ -562,6 +562,23 @@ fn op_rxreset(wd: &mut World, i: usize, ri: usize, sink: &mut Sink) {
     }
 }
 
+/// A RESET_STREAM frame that this stream's sender never emitted (non-conformant peer), with an arbitrary final size.
+/// Exact comparison with the model; a refusal is the expected answer, not a finding.
+fn op_rxreset_forged(wd: &mut World, i: usize, fin: u64, sink: &mut Sink) {
+    let (sid, snd, key) = { let h = &wd.halves[i]; (h.sid, h.snd, h.key.clone()) };
+    let op = format!("rxresetforged {} {}", key, fin);
+    sink.pending(&op);
+    let r = catch(|| wd.eps[1 - snd].ds.recv_stream_control(StreamCtlFrame::ResetStream(ResetStreamFrame::new(sid, vi(7), vi(fin)))));
+    wd.halves[i].aborted = true;
+    wd.collect(sink);
+    let h = &wd.halves[i];
+    match r {
+        Err(m) => { sink.line(&op, "PANIC"); sink.monitor_fail("panic:rx_reset_stream", &m); }
+        Ok(Err(e)) => { sink.branch(&format!("forged-reset:{:?}", e.kind())); sink.line(&op, &format!("err={:?} r={}", e.kind(), h.rname())); }
+        Ok(Ok(n)) => { sink.branch("forged-reset:accepted"); sink.line(&op, &format!("sync={} r={}", n, h.rname())); }
+    }
+}
+
 fn op_ackreset(wd: &mut World, i: usize, sink: &mut Sink) {
     let (sid, snd, key) = { let h = &wd.halves[i]; (h.sid, h.snd, h.key.clone()) };
     let fin = wd.halves[i].resets[0];
@@ -677,6 +694,15 @@ fn case_body(rng: &mut Rng, sink: &mut Sink, lossless: bool, world: &mut Option<
             continue;
         } else if c < 96 {
             saw_abort = true;
+            if rng.chance(1, 3) {
+                // malformed stream: RESET_STREAM from a non-conformant peer, final size around the advertised limit
+                // (limit-1 / limit / limit+1), around what was received, or far off
+                let lim = reader_window(&wd.halves[i].r).unwrap_or(0);
+                let got = wd.halves[i].emitted.iter().enumerate().filter(|(k, _)| wd.halves[i].delivered[*k]).map(|(_, (o, d, _))| o + d.len() as u64).max().unwrap_or(0);
+                let fin = match rng.below(8) { 0 => lim.saturating_sub(1), 1 | 2 => lim, 3 | 4 => lim + 1, 5 => got, 6 => got.saturating_sub(1), _ => rng.range(0, 3_000_000) };
+                op_rxreset_forged(wd, i, fin.min(VMAX), sink);
+                continue;
+            }
             op_cancel(wd, i, sink);
         } else if c < 97 {
             saw_abort = true;
@@ -859,7 +885,7 @@ pub fn run(o: &Opts) {
         let lossless = i % 16 == 0;
         one_case(&mut rng, &mut sink, lossless);
     }
-    sink.finish(&o.stats, "random schedules on a real client-role + server-role DataStreams pair: 1-3 concurrent uni/bidi streams opened from either side, random writes (0..2600 bytes), shutdown, flush/ready polls, one-frame packet assembly with random capacity (0..65000), then delivery / duplication / reordering / dropping / late acknowledgement / loss declaration of any frame ever emitted, reads with random buffer sizes, MAX_STREAM_DATA delivery, cancel / stop / STOP_SENDING / RESET_STREAM / connection error; 9 of 10 cases end with 0-3 adversarial rounds (every frame in flight is declared lost spuriously / lost for good / acknowledged late after a loss / delivered and acknowledged / left alone, the application may shut down before the retransmissions are assembled, retransmissions with random capacity) and the cooperative suffix (every frame in flight is lost for good [first 3 rounds] or delivered and acknowledged, load until nothing, read everything, window updates; a frame lost for good is never delivered or acknowledged again) after which completion is demanded; every 16th case is lossless and in order; non-trivial = a loss was declared and a duplicate or out-of-order delivery happened; distinct by hash of the case transcript");
+    sink.finish(&o.stats, "random schedules on a real client-role + server-role DataStreams pair: 1-3 concurrent uni/bidi streams opened from either side, random writes (0..2600 bytes), shutdown, flush/ready polls, one-frame packet assembly with random capacity (0..65000), then delivery / duplication / reordering / dropping / late acknowledgement / loss declaration of any frame ever emitted, reads with random buffer sizes, MAX_STREAM_DATA delivery, cancel / stop / STOP_SENDING / RESET_STREAM / connection error, and RESET_STREAM frames forged by a non-conformant peer with final sizes at limit-1 / limit / limit+1, around the largest offset received, or random; 9 of 10 cases end with 0-3 adversarial rounds (every frame in flight is declared lost spuriously / lost for good / acknowledged late after a loss / delivered and acknowledged / left alone, the application may shut down before the retransmissions are assembled, retransmissions with random capacity) and the cooperative suffix (every frame in flight is lost for good [first 3 rounds] or delivered and acknowledged, load until nothing, read everything, window updates; a frame lost for good is never delivered or acknowledged again) after which completion is demanded; every 16th case is lossless and in order; non-trivial = a loss was declared and a duplicate or out-of-order delivery happened; distinct by hash of the case transcript");
 }
 
 pub const RUNS: &[(&str, fn(&Opts))] = &[("C01", run)];
